@@ -278,6 +278,10 @@ func runWire(e *Env) {
 		case cqlspec.OpQuery:
 			tok := tokenRe.FindString(rq.Query)
 			op := ops[tok]
+			if op != nil && op.kind == "exec" && len(op.binds) > len(rq.Params.Values) {
+				k.Violate("C03", "C03/bound-values-not-sent", "the caller bound %d value(s) to %q; the driver sent the statement as QUERY with %d value(s)", len(op.binds), op.stmt, len(rq.Params.Values))
+				return
+			}
 			if op == nil || op.kind != "query" {
 				cl.SendError(sc, rec, cqlspec.ErrInvalid, "unknown token", node.Auto)
 				return
@@ -453,6 +457,11 @@ func wireGenOp(k *kernel.Kernel, token string, proto int) *wireOp {
 		op.stmt = "SELECT * FROM ks.t /*" + token + "*/ WHERE " + strings.Join(ph, " AND ")
 		if n == 0 {
 			op.stmt = "SELECT * FROM ks.t /*" + token + "*/"
+		}
+		if n > 0 && tp.Chance(1, 8) {
+			// the statement does not begin with its keyword
+			op.stmt = []string{"/* hint */ ", "-- c\n", "  \n\t"}[tp.Next(3)] + op.stmt
+			k.Fault("req.statement-begins-with-comment")
 		}
 		if tp.Chance(1, 3) {
 			op.noSkipMeta = true
